@@ -6,7 +6,7 @@
    check_types / async_check_types and of the three wrappers.  Types and the interpreters of
    the tiny languages only; no proofs.                                                       *)
 From Coq Require Import List Arith Bool String.
-From PV Require Import Base.Exn Base.Values Base.Ann.
+From PV Require Import Base.Exn Base.Values Base.Ann Model.CheckerCfg.
 Import ListNotations.
 
 (* ---- should_have_kwargs: an if-chain of boolean expressions over five atoms ---- *)
@@ -95,6 +95,7 @@ Record pedantic_cfg := {
   pc_async_wrapper : list wstep;            (* pedantic.decorator.async_wrapper *)
   pc_rk_wrapper : list wstep;               (* require_kwargs.wrapper *)
   pc_gen_bases : list tname;                (* GeneratorWrapper: the accepted base generics *)
+  pc_tables : checker_cfg;                  (* the tables of the type checker FunctionCall is linked with (check_types.py) *)
 }.
 
 Fixpoint list_eqb {A} (eqb : A -> A -> bool) (a b : list A) : bool :=
